@@ -333,7 +333,7 @@ fn c10_units(tier: Tier) -> Vec<Unit> {
                     // determinism of the harness itself: the same schedule twice gives identical observations
                     let again = run_with_schedule(&mut cpu, &g, &[], 500);
                     if base.er != again.er || base.log != again.log || base.iterations != again.iterations || base.data != again.data {
-                        ctx.custom_violation("c10", "MACHINERY: two runs of the same schedule differ".into(), json!({"guest": g.name, "schedule": []}), json!(null), json!(null));
+                        ctx.machinery("two runs of the same schedule differ".into());
                         return;
                     }
                     if base.result != "ok" {
